@@ -1,8 +1,8 @@
 SPECIFICATION SpecIdle
 CONSTANTS
   Firers = {"f1", "f2"}
-  Variants = {"fallback", "poller"}
-  Timers = {FALSE, TRUE}
+  Variants = {"poller"}
+  Timers = {FALSE}
   Quotas <- UniformQuotas
   NFiresSet = {2}
   MaxFires = 2
